@@ -116,6 +116,27 @@ CHECKS = {
             "pattern text under two operator families in one query must behave as each family alone.",
             "ASCII names; `=` without wildcard is exact; Python re and Rust regex agree on the small regex subset used.",
             "DESIGN.md 4 C12"),
+    "C13": ("exploration",
+            "property-based testing (Hypothesis): generated literals x time zones x spellings against an interval "
+            "reference, algebraic laws (trichotomy, unions, complement) on the binary's own answers, relative literals "
+            "under a controlled clock (LD_PRELOAD clock shim)",
+            "For each literal the tree holds files exactly on and one second around both interval edges; all eight "
+            "operators and BETWEEN must select exactly the files the documented interval semantics selects, <, =, > "
+            "must partition the files, and `modified` must print local time. today/yesterday/signed offsets are "
+            "checked with the process clock pinned to chosen local days (incl. DST days, midnight, 23:59:59).",
+            "zoneinfo/tzdata is the local-time reference; === / !== only at second precision; English dates excluded.",
+            "DESIGN.md 4 C13"),
+    "C14": ("exploration",
+            "exhaustive enumeration of the unit table (all suffixes x letter cases x numbers x operators) plus "
+            "property-based testing (Hypothesis) of the format specifier grammar with label/spacing/decimals "
+            "predicates, monotonicity and parse-back round trip",
+            "Literals: every documented unit in every letter case, integer and fractional numbers, compared against "
+            "sparse files one byte below/at/above the denoted size. Formatting: generated specifier strings x a "
+            "logarithmic size grid: documented table verbatim, unit label/spacing/decimals per grammar, monotone in "
+            "size, parse-back within half a unit of the last digit; fsize with default_file_size_format equals "
+            "format_size with the same specifier.",
+            "Rounding mode, automatic unit choice, units p/e and undocumented flag/unit combinations are don't-care.",
+            "DESIGN.md 4 C14"),
 }
 
 PENDING = {}
